@@ -421,6 +421,9 @@ class Image:
             self.date.append(image.date)
 
         # Relative time - combine internal stored times
+        if offset is None and self._is_none(self.date) and self._is_none(image.date):
+            # Without dates, relative times cannot be recomputed, only kept.
+            offset = 0
         if self._is_none(self.time) or self._is_none(image.time) or offset is None:
             time = None
         else:
